@@ -25,13 +25,15 @@ def main():
     checks = checks or [prop]
     res = {'id': sid, 'property': prop}
     # 1. confirm in the scratch worktree
+    sh('git apply -R %s' % patch, cwd=wt)   # a previous attempt may have left the patch (and files it adds) applied
     sh('git checkout -- . ', cwd=wt)
     rc, o = sh('git apply --check %s && git apply %s' % (patch, patch), cwd=wt)
     if rc != 0: print('patch does not apply:', o[-500:]); return 2
     # the unedited suite: the demo (untracked files outside OUT/) is moved aside while it runs
     rcu, ou = sh("git status --porcelain --untracked-files=all | grep '^??' | cut -c4- | grep -v '^OUT/' | grep -v '^target/'", cwd=wt)
     aside = os.path.join(wt, 'OUT', '.aside'); moved = []
-    for f in [x for x in ou.splitlines() if x.strip()]:
+    in_patch = set(re.findall(r'^\+\+\+ b/(\S+)', open(patch).read(), re.M))   # files the patch itself adds stay where they are
+    for f in [x for x in ou.splitlines() if x.strip() and x.strip() not in in_patch]:
         d = os.path.join(aside, f); os.makedirs(os.path.dirname(d), exist_ok=True); shutil.move(os.path.join(wt, f), d); moved.append(f)
     rc, o = sh('cargo test --workspace --no-fail-fast --offline 2>&1', cwd=wt)
     for f in moved:
@@ -63,6 +65,7 @@ def main():
             caught[c] = {'rc': rc, 'violation': v[:1], 'detail': detail, 'wall_s': round(time.time() - t0, 1)}
             print(c, 'rc', rc, v[:1], detail[:2])
     finally:
+        sh('git apply -R %s' % patch, cwd='/repo')   # also removes files the patch added
         sh('git checkout -- .', cwd='/repo')
         for f in glob.glob(os.path.join(ROOT, 'replays', '*.json')):
             if os.path.getmtime(f) > time.time() - 3600 and not keep: os.remove(f)
